@@ -315,6 +315,14 @@ def kb_model_stream(events, nreads):
 
 def kb_run(events, nreads, via_text, write_every):
     from flipjump.interpreter.io_devices.KeyboardIO import KeyboardIO, ScriptedKeyEventSource, KeyEvent
+    try:
+        return _kb_run(events, nreads, via_text, write_every)
+    except Exception as e:  # noqa  (every generated script is valid: building / polling the device must not fail)
+        return [f'{type(e).__name__}: {str(e)[:120]}'], (('valid script',), ('device failed',))
+
+
+def _kb_run(events, nreads, via_text, write_every):
+    from flipjump.interpreter.io_devices.KeyboardIO import KeyboardIO, ScriptedKeyEventSource, KeyEvent
     if via_text == 'mixed':
         # every accepted spelling of the documented `tic, down/up, keycode` line: any letter case, 1 / 0, numbers in other bases, blanks, comments
         downs, ups = ('Down', 'DOWN', '1', 'dOwN', 'down'), ('Up', 'UP', '0', 'uP', 'up')
